@@ -280,3 +280,24 @@ Definition header_ok (d : byte) (t : table) (h : hdr) : Prop :=
   fst h = [d] /\ Forall2 hfield_match (tdt t) (snd h).
 Definition header_check (d : byte) (t : table) (h : hdr) : bool :=
   bytes_eqb (fst h) [d] && forall2b hfield_match_b (tdt t) (snd h).
+
+(* ------------------------------------------------------------------ "strings free of newline characters"
+   (needed only where the number of rows is recovered by counting lines: Recfile without nrows=) *)
+Definition is_eol (b : byte) : bool := byte_eqb b nl || byte_eqb b x0d.
+Definition el_noeol_b (f : fld) (e : list byte) : bool :=
+  if is_str (fkind f) then forallb (fun b => negb (is_eol b)) e else true.
+Fixpoint row_noeol_b (fs : list fld) (r : row) : bool :=
+  match fs, r with
+  | f :: fs', els :: r' => forallb (el_noeol_b f) els && row_noeol_b fs' r'
+  | _, _ => true
+  end.
+Definition strings_noeol_b (t : table) : bool := forallb (row_noeol_b (tdt t)) (trows t).
+Definition strings_noeol (t : table) : Prop := strings_noeol_b t = true.
+
+(* the stream begins with something the directive " <delim>" would not touch *)
+Definition starts_safe (d : byte) (rest : list byte) : Prop :=
+  match rest with [] => True | b :: _ => is_ws b = false /\ b <> d end.
+
+(* the native image of a table: what Recfile.write hands to the C++ writer *)
+Definition native_table (t : table) : table :=
+  {| tdt := map native_fld (tdt t); trows := map (to_native_row (tdt t)) (trows t) |}.
